@@ -114,6 +114,10 @@ func refusing(hostport string) bool {
 	if v, ok := refuseCache[hostport]; ok {
 		return v
 	}
+	if h, _, err := net.SplitHostPort(hostport); err == nil && net.ParseIP(h) == nil {
+		refuseCache[hostport] = true // a name under .invalid: nothing to connect to
+		return true
+	}
 	c, err := net.DialTimeout("tcp", hostport, 2*time.Second)
 	if err == nil {
 		c.Close()
@@ -128,6 +132,20 @@ func randHost(r *mon.Rng) string {
 		return fmt.Sprintf("127.%d.%d.%d", r.Range(0, 255), r.Range(0, 255), r.Range(1, 254))
 	case 1:
 		return fmt.Sprintf("127.0.%d.%d", r.Range(0, 9), r.Range(1, 254))
+	case 2:
+		// a host name, short or as long as cloud-provider names get (the reserved .invalid TLD never resolves)
+		const al = "abcdefghijklmnopqrstuvwxyz0123456789-"
+		want := r.PickInt([]int{12, 30, 54, 64, 70, 100, 180})
+		h := ""
+		for len(h) < want {
+			if h != "" {
+				h += "."
+			}
+			for k := r.Range(3, 24); k > 0; k-- {
+				h += string(al[r.Intn(len(al)-1)])
+			}
+		}
+		return h + ".invalid"
 	default:
 		return fmt.Sprintf("127.0.0.%d", r.Range(1, 254))
 	}
@@ -632,8 +650,12 @@ func (v *verifier) verify(u *routeUnderTest, wbNames, bbNames int, sample []int,
 	if wbNames > n {
 		wbNames = n
 	}
+	if !haveAccessor {
+		// built without the white-box accessor (it does not compile against this tree): the counter paths decide alone
+		wbNames = 0
+	}
 	for i, nm := range c.names[:wbNames] {
-		idx, dkey, nd, ok := route.VerifHashDestination(u.rt, nm)
+		idx, dkey, nd, ok := hashDestination(u.rt, nm)
 		if !ok {
 			panic("route under test is not a consistentHashing route")
 		}
